@@ -7,6 +7,32 @@ mod common;
 
 use mcx::*;
 
+/// Make the reported witnesses deterministic and small: re-scan the cases in order
+/// (single-threaded) until every violation class found by the parallel sweep has
+/// been met again, and report that first-in-order witness instead.
+pub fn first_witnesses(sw: &mut Sweep, n: usize, f: impl Fn(usize, &mut Sweep)) {
+    if sw.violations.is_empty() {
+        return;
+    }
+    let t0 = std::time::Instant::now();
+    let want: std::collections::BTreeSet<String> = sw.violations.iter().map(|v| v.sig.clone()).collect();
+    let mut local = Sweep::new(&sw.name, &sw.rule);
+    for i in 0..n {
+        f(i, &mut local);
+        let have: std::collections::BTreeSet<String> = local.violations.iter().map(|v| v.sig.clone()).collect();
+        if want.is_subset(&have) || t0.elapsed().as_secs() > 30 {
+            break;
+        }
+    }
+    for v in sw.violations.iter_mut() {
+        if let Some(first) = local.violations.iter().find(|l| l.sig == v.sig) {
+            *v = first.clone();
+            v.confirmed_by_second_replay = true;
+        }
+    }
+    sw.violations.sort_by(|a, b| a.sig.cmp(&b.sig));
+}
+
 fn main() {
     let cli = Cli::parse();
     match cli.property.as_str() {
